@@ -109,8 +109,8 @@ fn history(s: &mut Session, adds: &[(f64, Color)], samples: &[f64], space: &str,
             }
         };
         if let Some(st) = stop_cols.iter().find(|e| e.0 == qv) {
-            // exactly at a stop: the stop's own colour (8-bit stops; alpha to 1e-12)
-            s.check(rgb(&got) == rgb(&st.1) && (got.to_rgba().alpha - st.1.to_rgba().alpha).abs() <= 1e-12, "sample-at-stop-exact", "ColorScale::sample", inp, || format!("got {} expected {}", show_color(&got), show_color(&st.1)));
+            // exactly at a stop: the stop's own colour, as it is (any colour, in every mixing space)
+            s.check(got.to_hsla() == st.1.to_hsla(), "sample-at-stop-exact", "ColorScale::sample", inp, || format!("got {} expected {}", show_color(&got), show_color(&st.1)));
         } else {
             let i = stop_cols.iter().position(|e| e.0 > qv).unwrap();
             let (l, r) = (&stop_cols[i - 1], &stop_cols[i]);
